@@ -66,7 +66,13 @@ def _get_unmarshaller(  # type: ignore[return]
     context: routines.ContextT,
 ) -> routines.AbstractMarshaller[T]:
     if node.type in context:
-        return context[node.type]
+        known = context[node.type]
+        # (The stand-in for a revisited generic gives way to the routine itself.)
+        if node.cyclic or not isinstance(known, DelayedMarshaller):
+            return known
+    # Seen before, but not built yet: resolve it when it is first needed, like a reference.
+    if node.cyclic:
+        return DelayedMarshaller(node.unwrapped, context=context, var=node.var)
 
     for check, unmarshaller_cls in _HANDLERS.items():
         if check(node.unwrapped):
